@@ -69,6 +69,22 @@ func ruleC15(c *Ctx) {
 					for _, cd := range lf.Conds {
 						lits = append(lits, guardLits(cd)...)
 					}
+					// simplify each condition under the region's own literals
+					var simp []*sym.Term
+					for _, l := range lits {
+						for _, rl := range guardLits(rg.cond) {
+							if rl.Op == "not" {
+								l = sym.Assume(l, rl.Args[0], false)
+							} else {
+								l = sym.Assume(l, rl, true)
+							}
+						}
+						if bv, isC := l.BoolVal(); isC && bv {
+							continue
+						}
+						simp = append(simp, guardLits(l)...)
+					}
+					lits = simp
 					var extra []*sym.Term
 					for _, l := range lits {
 						if !impliesLit([]*sym.Term{rg.cond}, l) {
